@@ -21,6 +21,7 @@ PROPS = {
             {'engine': 'verus', 'name': 'file_source', 'tier': 'quick', 'role': 'FileSource::{setup,next}: byte ranges tile the file; a replica emits exactly the lines starting in (lo, hi]'},
             {'engine': 'verus', 'name': 'channel_source', 'tier': 'quick', 'role': 'ChannelSource::next: every received item is emitted once, in order'},
             {'engine': 'verus', 'name': 'csv_source', 'tier': 'quick', 'role': 'byte-range computation of CsvSource::setup: start/end aligned to record boundaries, end of replica g == start of replica g+1, for any file size and replica count'},
+            {'engine': 'verus', 'name': 'iterator_source', 'tier': 'quick', 'role': 'IteratorSource::{next,replication}: every item of the iterator once, in order, then one FlushAndRestart, then Terminate forever; a single replica'},
         ],
         'explanation': 'Verus proof (unbounded) that every integer-range instance of generate_iterator returns exactly the chunk '
                        '[lo+min(n,i*c), lo+min(n,(i+1)*c)) without panicking for all bounds incl. reversed and near-limit ones, and a pure '
@@ -96,6 +97,8 @@ PROPS = {
             {'engine': 'verus', 'name': 'channel_source', 'tier': 'quick', 'role': 'ChannelSource::next: one FlushAndRestart when the channel closes, then Terminate forever'},
             {'engine': 'verus', 'name': 'collect_vec', 'tier': 'quick', 'role': 'CollectVecSink::next publishes its result exactly when Terminate arrives (once, complete), nothing before'},
             {'engine': 'verus', 'name': 'window_operator', 'tier': 'quick', 'role': 'WindowOperator::next: a data element goes to the manager of its key only (created from init on first use), its results are queued with that key; a control element goes to every manager and is queued AFTER all their results; recycled managers are dropped; the queue is served in order'},
+            {'engine': 'verus', 'name': 'add_timestamps', 'tier': 'quick', 'role': "AddTimestamp::next: item stamped with the generator's timestamp, the generator's watermark leaves in the very next call before anything else is pulled, control elements pass through unchanged; DropTimestamp::next: watermarks absorbed, timestamps stripped, the rest unchanged"},
+            {'engine': 'verus', 'name': 'iterator_source', 'tier': 'quick', 'role': 'IteratorSource::{next,replication}: every item of the iterator once, in order, then one FlushAndRestart, then Terminate forever; a single replica'},
         ],
         'explanation': 'Verus proof of the per-call contract of Start::next (any number of upstream replicas, any batches): FlushAndRestart is returned exactly when every '
                        'upstream FlushAndRestart of the iteration was consumed (and the per-iteration state restarts), Terminate exactly when every upstream Terminate was consumed, '
@@ -110,6 +113,7 @@ PROPS = {
             {'engine': 'verus', 'name': 'end_next', 'tier': 'quick', 'role': 'one sender per group: every element is appended to that sender in arrival order'},
             {'engine': 'verus', 'name': 'reorder', 'tier': 'quick', 'role': 'Reorder::next: releases the minimum first, only when covered by a watermark / iteration end, no loss'},
             {'engine': 'verus', 'name': 'collect_vec', 'tier': 'quick', 'role': 'the sink end of the chain: CollectVecSink::next keeps every data element in arrival order and publishes the whole vector at Terminate'},
+            {'engine': 'verus', 'name': 'iterator_source', 'tier': 'quick', 'role': 'IteratorSource::{next,replication}: every item of the iterator once, in order, then one FlushAndRestart, then Terminate forever; a single replica'},
         ],
         'explanation': 'order preservation along a single-replica path: Batcher view equation (Verus), Start::next stream equation (nothing lost, duplicated or reordered between link and chain), End::next appends in arrival order.',
         'assumptions': ['reorder() and sinks/sources: see unit list'],
@@ -137,6 +141,7 @@ PROPS = {
             {'engine': 'verus', 'name': 'frontier_v', 'tier': 'quick', 'role': 'WatermarkFrontier::{update,compute_frontier,reset}: front = min of entries or None, returns the new frontier iff it changed, announced values strictly increase (any number of replicas; IndexMap modelled)'},
             {'engine': 'kani', 'name': 'frontier', 'tier': 'thorough', 'bounded': True, 'role': 'same contract on the REAL IndexMap + fxhash, 2 upstream replicas; opt_join complete'},
             {'engine': 'verus', 'name': 'window_operator', 'tier': 'quick', 'role': 'WindowOperator::next: a data element goes to the manager of its key only (created from init on first use), its results are queued with that key; a control element goes to every manager and is queued AFTER all their results; recycled managers are dropped; the queue is served in order'},
+            {'engine': 'verus', 'name': 'add_timestamps', 'tier': 'quick', 'role': "AddTimestamp::next: item stamped with the generator's timestamp, the generator's watermark leaves in the very next call before anything else is pulled, control elements pass through unchanged; DropTimestamp::next: watermarks absorbed, timestamps stripped, the rest unchanged"},
         ],
         'explanation': 'per-operator watermark contracts proved on the real next() functions (Verus, unbounded) plus the frontier / event-time window contracts (Kani single-call harnesses, bounded state size).',
         'assumptions': ['W_in: the operator input respects the watermark contract', 'Fold/KeyedFold/FlatMap/AddTimestamp/WindowOperator wiring: see unit list'],
